@@ -77,6 +77,15 @@ def system_case(draw, tier):
     extra = {"name": "XTRA", "edges": [[0, 1]], "residues": [["XT", 1, ["C1", "C2"]]]}
     solvent = {"name": "SOL", "edges": [[0, 1], [0, 2]], "residues": [["SOL", 1, ["OW", "HW1", "HW2"]]]}
     names = sorted(species)
+    two_res = [nm for nm in names if len(species[nm]["start"]["residues"]) == 2]
+    cap_for = None
+    if two_res and draw(st.integers(0, 2)) == 0:
+        # the species without topology ENDS in a residue of the kind (name, atom count) a mapped two-residue species
+        # STARTS with: an instance of it right before that species must not disturb the search for the latter
+        cap_for = draw(st.sampled_from(two_res))
+        lead = species[cap_for]["start"]["residues"][0]
+        solvent = {"name": "SOL", "edges": [], "residues": [["CP", 1, ["Q1"]], [lead[0], 2, ["Z%d" % (i + 1) for i in range(len(lead[2]))]]],
+                   "coords": [[0.1 * i, 0.05 * (i % 2), 0.0] for i in range(1 + len(lead[2]))]}
     with_end = draw(st.lists(st.sampled_from(names), min_size=1, max_size=len(names), unique=True))
     L = draw(st.integers(2, 120 if tier == "thorough" else 12))
     pool = names + ["XTRA", "SOL"]
@@ -92,6 +101,11 @@ def system_case(draw, tier):
         skipped = "XTRA" if len(with_end) == len(names) else [nm for nm in names if nm not in with_end][0]
         at = draw(st.integers(0, len(seq)))
         seq[at:at] = [a, b, skipped, a, b]
+    if cap_for is not None:
+        at = draw(st.integers(0, len(seq)))
+        seq[at:at] = [cap_for, "SOL", cap_for, "SOL", "SOL", cap_for]
+        if cap_for not in with_end:
+            with_end = list(with_end) + [cap_for]
     load = [nm for nm in names if nm in seq]
     if "XTRA" in seq:
         load.append("XTRA")
@@ -138,7 +152,7 @@ def check(case):
     species = case["species"]
     specs = {nm: sp["start"] for nm, sp in species.items()}
     specs["XTRA"] = dict(case["extra"], coords=[[0, 0, 0], [0.3, 0, 0]])
-    specs["SOL"] = dict(case["solvent"], coords=[[0, 0, 0], [0.1, 0, 0], [0, 0.1, 0]])
+    specs["SOL"] = dict(case["solvent"], coords=case["solvent"].get("coords") or [[0, 0, 0], [0.1, 0, 0], [0, 0.1, 0]])
     # ---- write the input system
     records = []
     instances = []
